@@ -305,6 +305,47 @@ C["C16"] = {
  "stubs": SRV_STUBS + LIVE, "trusted_base": SRV_TB,
 }
 
+# ---------------- C03 ----------------
+C["C03"] = {
+ "pkgs": ["."],
+ "technique": "bounded symbolic execution of solver-chosen histories through the real SUBSCRIBE/UNSUBSCRIBE/PUBLISH handlers, trie and publishToClient against a set model with reference matching, ACL table and No Local",
+ "quick": {"harnesses": [H("VerifC03History", STEPS=3)], "budget_s": 400, "witnesses": 8, "perm_limit": 2,
+   "bounds": "2 clients (publisher A v5, subscriber B v4/v5), every history of 3 steps among {subscribe(client, filter in {a/b, a/+, #, x}, No Local), unsubscribe, publish a/b with payload + content type + response topic + correlation data + user property, B disconnects}; read ACL verdict for (B, a/b) symbolic"},
+ "thorough": {"harnesses": [H("VerifC03History", STEPS=4)], "budget_s": 3000, "witnesses": 16, "perm_limit": 2, "bounds": "as quick with histories of 4 steps"},
+ "outside_bounds": ["bytes on the wire after a concurrent WriteLoop (the harness drains the queue through the real WritePacket)", "true concurrency between publishers", "longer histories, more clients", "the reported-drop paths (queue full etc.) are C34's"],
+ "stubs": SRV_STUBS, "trusted_base": SRV_TB + ["set model of subscriptions in the harness"],
+}
+# ---------------- C17 ----------------
+C["C17"] = {
+ "pkgs": ["."],
+ "technique": "bounded symbolic execution of every route a message can take (SUBSCRIBE, PUBLISH, delivery, retained replay, will via the real connection handler) with the permission relation as solver booleans served by a harness hook",
+ "quick": {"harnesses": [H("VerifC17Routes", VER=5), H("VerifC17Routes", VER=4), H("VerifC17Will")], "budget_s": 300, "witnesses": 8, "perm_limit": 1,
+   "bounds": "write permission of the publisher and read permission of the subscriber on one topic symbolic, ObscureNotAuthorized symbolic, publish QoS 0/1, retain symbolic, subscription existing before the permission was withdrawn or not; will topic in {w, w/+, #, $SYS/w}, will retain symbolic, will write permission symbolic, protocol 4/5"},
+ "thorough": {"harnesses": [H("VerifC17Routes", VER=5), H("VerifC17Routes", VER=4), H("VerifC17Routes", VER=3), H("VerifC17Will")], "budget_s": 600, "witnesses": 16, "perm_limit": 1, "bounds": "as quick"},
+ "outside_bounds": ["more than one topic / two clients in the permission relation", "inline publishes (exempt by design)"],
+ "stubs": SRV_STUBS + LIVE, "trusted_base": SRV_TB,
+}
+# ---------------- C19 ----------------
+C["C19"] = {
+ "pkgs": ["."],
+ "technique": "bounded symbolic execution of the Hooks dispatchers and processPublish/ReadPacket with 1-3 harness hooks whose behaviour per call is chosen by the solver",
+ "quick": {"harnesses": [H("VerifC19Publish", VER=5), H("VerifC19Publish", VER=4), H("VerifC19Or"), H("VerifC19Read")], "budget_s": 300, "witnesses": 8, "perm_limit": 1,
+   "bounds": "1..2 publish hooks each in {pass, modify, ErrRejectPacket, CodeSuccessIgnore, packets.Code error, plain error}; publish QoS 0..2, retain symbolic, protocol 4/5; 1..3 auth/ACL hooks with symbolic verdicts; one read hook rejecting or not"},
+ "thorough": {"harnesses": [H("VerifC19Publish", VER=5), H("VerifC19Publish", VER=4), H("VerifC19Publish", VER=3), H("VerifC19Or"), H("VerifC19Read")], "budget_s": 600, "witnesses": 16, "perm_limit": 1, "bounds": "as quick"},
+ "outside_bounds": ["more than 2 publish hooks", "OnSubscribe/OnPacketEncode chains (same dispatcher pattern; not asserted)"],
+ "stubs": SRV_STUBS, "trusted_base": SRV_TB,
+}
+# ---------------- C23 ----------------
+C["C23"] = {
+ "pkgs": ["."],
+ "technique": "every transcript produced by the symbolically executed connection handler and request handlers is parsed by a strict reference decoder written from the MQTT 3.1.1/5.0 specifications; well-formedness, version and size obligations are SMT queries over the symbolic bytes",
+ "quick": {"harnesses": [H("VerifC13Attach", WF=1), H("VerifC14Takeover", WF=1), H("VerifC07Request", WF=1, VER=5), H("VerifC07Request", WF=1, VER=4), H("VerifC23MaxSize", PAYLOAD=24), H("VerifC23SubackV3"), H("VerifC23DisconnectV3")], "budget_s": 600, "witnesses": 4, "perm_limit": 1,
+   "bounds": "all CONNECT variants of C13, the takeover scenarios of C14, the requests of C07; client Maximum Packet Size symbolic 1..40 with payload 0..24 bytes and optional user property; SUBSCRIBE/UNSUBSCRIBE failure paths for protocol 3/4/5; broker-initiated disconnects"},
+ "thorough": {"harnesses": [H("VerifC13Attach", WF=1), H("VerifC14Takeover", WF=1), H("VerifC16Will"), H("VerifC07Request", WF=1, VER=5), H("VerifC07Request", WF=1, VER=4), H("VerifC07Request", WF=1, VER=3), H("VerifC23MaxSize", PAYLOAD=40), H("VerifC23SubackV3"), H("VerifC23DisconnectV3")], "budget_s": 1800, "witnesses": 8, "perm_limit": 1, "bounds": "as quick, payload up to 40 bytes"},
+ "outside_bounds": ["interleaving of bytes from concurrent writers (WritePacket serialises under the client lock; true parallelism is not modelled)", "packets the encoded handlers cannot emit", "problem/response-information suppression (asserted by the codec check C26 through Mods)"],
+ "stubs": SRV_STUBS + LIVE, "trusted_base": SRV_TB,
+}
+
 def main():
     os.makedirs(os.path.join(root, "checks"), exist_ok=True)
     for cid, c in C.items():
